@@ -101,7 +101,7 @@ PROPS = {
         "design_ref": "DESIGN.md section 5, C05",
     },
     "C06": {
-        "modules": ["Qvnt.Props.C06"],
+        "modules": ["Qvnt.Props.C06", "Qvnt.Props.Code.C06"],
         "tie": [tie2(r"quant_(collapse_mask|rescale|measure_mask|measure|get_absolute|get_probabilities)_eq|creg_new_eq", r"UNSUPPORTED quant\.rs: register/quant\.rs::(collapse_mask|rescale|measure_mask|measure|get_absolute|get_probabilities):", creg=True)],
         "suites": [suite("meas", dict(count=500, max_n=6), dict(count=15000, max_n=10))],
         "mismatch_tags": [r"measure.*"],
@@ -276,7 +276,7 @@ PROPS = {
         "design_ref": "DESIGN.md section 5, C14",
     },
     "C16": {
-        "modules": ["Qvnt.Props.C16"],
+        "modules": ["Qvnt.Props.C16", "Qvnt.Props.Code.C16"],
         "tie": [tie2(r"quant_sample_all_eq|surplus_loop_eq|updateSelected_eq_go|proposal_eq|quant_get_probabilities_eq", r"UNSUPPORTED quant\.rs: register/quant\.rs::(sample_all|get_probabilities):")],
         "suites": [suite("sample", dict(count=600, max_n=6), dict(count=20000, max_n=10))],
         "mismatch_tags": [r"sample"],
